@@ -6,7 +6,7 @@
 #   3. runs the property's quick check against the changed tree,
 #   4. stores patch, demonstration and meta.json under /verif/seeded/<id>-<n>/.
 # Nothing is ever applied to /repo itself here and the scratch worktree is removed at the end.
-PID=$1; N=$2; SRC=${3:-/tmp/seed-$PID/SEED}
+PID=$1; N=$2; SRC=${3:-/tmp/seed-$PID/_SEED}; [ -d $SRC ] || SRC=/tmp/seed-$PID/SEED
 export GOFLAGS=-mod=mod GOPROXY=off GOSUMDB=off GOTOOLCHAIN=local
 WT=/tmp/seedcheck-$PID-$N
 OUT=/verif/seeded/$PID-$N
